@@ -92,6 +92,8 @@ func NewMuxer(ctx context.Context, w io.Writer, opts ...func(*Muxer)) *Muxer {
 		pmtCC: newWrappingCounter(0b1111),
 
 		esContexts: map[uint32]*esContext{},
+
+		nextPID: startPID,
 	}
 
 	m.bufWriter = astikit.NewBitsWriter(astikit.BitsWriterOptions{Writer: &m.buf})
@@ -120,6 +122,13 @@ func (m *Muxer) AddElementaryStream(es PMTElementaryStream) error {
 			}
 		}
 	} else {
+		// Skip PIDs that are already in use
+		for {
+			if _, ok := m.esContexts[uint32(m.nextPID)]; !ok && m.nextPID != pmtStartPID {
+				break
+			}
+			m.nextPID++
+		}
 		es.ElementaryPID = m.nextPID
 		m.nextPID++
 	}
